@@ -38,6 +38,10 @@ CHECKS = {
    technique='three exhaustive layers: all insert/delete words on the lock map vs. a multiset; explicit-state BFS over trie histories with up to 3 iterators; explicit-state BFS over InstanceState host-operation histories incl. interrupts vs. a handle/generation model',
    text='(1) every word up to depth 6/8 of insert/delete on the reference-counted prefix map, all queries after every step; (2) the trie history search with a lock-centred alphabet (iterators on equal, nested and disjoint prefixes; modifications at, under, above and beside them; checkpoint/rollback/commit): modifications under a live prefix are refused and leave the state unchanged, iterators yield exactly their snapshot in order, delete_iter releases exactly one lock; (3) the contract-visible InstanceState operations (lookup/create/delete/delete_prefix/iterate/next/delete/key/read/write/resize, foreign handles) interleaved with interrupts (no change, nested call rolled back, nested call committed) against a model of handles, incarnations and generation counters with the documented return encodings.',
    note='Trusted: hooks H1/H4 (forwarding only), the models in /verif/engines/mc-state. Contract-level end-to-end (through Wasm) is C14.'),
+ 'C07': dict(engine='mc-crypto', ref='DESIGN.md §5 C07',
+   technique='exhaustive enumeration of statement shapes x witness alphabet x transcripts x contexts per sigma protocol with the complete single-component perturbation set; explicit enumeration of all transcript operation sequences up to depth 3/4 for framing injectivity',
+   text='For dlog, com_eq, com_eq_different_groups, com_enc_eq, com_mult, com_lin, com_ineq, aggregate_dlog, vcom_eq, com_eq_sig, ps_sig_known (every known/public/committed pattern of length <=2/3), AndAdapter and ReplicateAdapter: every witness from {random, 0, 1, r-1}, repeated generators, vector sizes 0/1/2/5, under the legacy and the V1 transcript and contexts {"", "a", "ab"}: the proof verifies; it fails under every other context, the other transcript protocol, every single replaced public component (another element, identity, negation, double; vector entries swapped / dropped / appended), another valid instance, every flipped bit of the challenge and of the serialised response. Transcript framing: all sequences of <=3/4 operations over label/message/messages/each/final with label-determined types give pairwise distinct challenges (V1), modulo the API-defined identity final = message.',
+   note='EncTrans is covered through C12; DlogEqual and DlogAndAggregateDlogsEqual are private unused modules. vcom_eq and ReplicateAdapter are only exercised on non-empty vectors (their documented precondition; observations O9/O10 in DESIGN.md). Hook H5 (ComLinSecret constructor).'),
  'C11': dict(engine='mc-crypto', ref='DESIGN.md §5 C11',
    technique='exhaustive grid of (bit width, batch size, boundary value, position) x transcripts, all ordered pairs/triples of a boundary alphabet for derived statements, all (set size, element/neighbour) combinations, complete context-perturbation list and single-bit-flip neighbourhood of serialised proofs; oracle = truth of the statement',
    text='Range proofs for n in {1,2,3,4,8,32,64} (thorough: 13 widths incl. non powers of two) x m in {1,2(,3,4)} on values 0, 1, 2^(n-1), 2^n-2, 2^n-1 (must prove and verify) and 2^n, 2^n+1, 2^64-1 (whatever the honest prover outputs must not verify) under the legacy and the V1 transcript; generator vectors one short / one long; a<=b on all ordered pairs and v in [a,b) on all triples of a boundary alphabet; set membership / non-membership for set sizes 1..5 (..16) with every element, both neighbours, below min and above max; every context perturbation (commitments, generators, keys, n, domain, version, transcript protocol) and every single-bit flip of the serialised proof must be rejected.',
@@ -69,7 +73,7 @@ manifest = {
  "engines": [
    {"name": "mc-wasm", "path": "/verif/engines/mc-wasm", "serves_properties": ["C01", "C02", "C09", "C13"],
     "kind_free_text": "bounded exhaustive Wasm program enumeration on the real concordium-wasm engine vs. reference validator/interpreter"},
-   {"name": "mc-crypto", "path": "/verif/engines/mc-crypto", "serves_properties": ["C11", "C12", "C19", "C20"],
+   {"name": "mc-crypto", "path": "/verif/engines/mc-crypto", "serves_properties": ["C07", "C11", "C12", "C19", "C20"],
     "kind_free_text": "exhaustive configuration / boundary-input / single-component-perturbation enumeration on the real cryptographic code vs. truth predicates"},
    {"name": "mc-state", "path": "/verif/engines/mc-state", "serves_properties": ["C03", "C04", "C15"],
     "kind_free_text": "explicit-state search over operation histories of the real contract-state trie vs. ordered-map model and independent hash"},
